@@ -39,7 +39,7 @@ func pertSites(lines []string) []Pert {
 		out = append(out, Pert{"trail", i, 0, 0}, Pert{"trail", i, 0, 1})
 	}
 	for b := 0; b <= len(lines); b++ {
-		for v := 0; v < 4; v++ {
+		for v := 0; v < 5; v++ {
 			out = append(out, Pert{"insert", b, 0, v})
 		}
 	}
@@ -79,6 +79,8 @@ func applyPerts(lines []string, ps []Pert) (string, bool) {
 				sb.WriteString("; a comment" + eol)
 			case 2:
 				sb.WriteString(";name Some Name" + eol)
+			case 4:
+				sb.WriteString("; " + strings.Repeat("a very long comment line ", 3000) + eol)
 			default:
 				sb.WriteString("   \t " + eol)
 			}
@@ -148,6 +150,8 @@ func applyPerts(lines []string, ps []Pert) (string, bool) {
 				sb.WriteString(";name Some Name")
 			case 3:
 				sb.WriteString("   \t ")
+			case 4:
+				sb.WriteString("; " + strings.Repeat("a very long comment line ", 3000))
 			}
 		}
 	} else {
@@ -295,7 +299,7 @@ func (c *Ctx) RunC09(tier string) {
 			}
 		}
 	}
-	rep.Bound += fmt.Sprintf("; %d warriors x every set of <=2 layout perturbations (quick: <=1, <=2 for one warrior per dialect; thorough: also every set of 3 for a one-instruction warrior per dialect) out of: case of a line, extra blanks / tab at each of 7 gaps, removed blank after the comma, CR-LF, blank / comment / metadata / whitespace-only line at every boundary, trailing comment, missing final newline", nw)
+	rep.Bound += fmt.Sprintf("; %d warriors x every set of <=2 layout perturbations (quick: <=1, <=2 for one warrior per dialect; thorough: also every set of 3 for a one-instruction warrior per dialect) out of: case of a line, extra blanks / tab at each of 7 gaps, removed blank after the comma, CR-LF, blank / comment / metadata / whitespace-only / 75000-character comment line at every boundary, trailing comment, missing final newline", nw)
 	lines := ref.PrintLines(alphabet12(false, 8000)[1:4], 1, false, 8000, ref.SpellSigned)
 	rep.Sample(strings.Join(lines, "\n") + "\n")
 }
